@@ -372,7 +372,7 @@ func TestLifecycle(t *testing.T) {
 					case 1:
 						bad.Matchers, what = []sim.APIMatcher{}, "empty matcher list"
 					case 2:
-						bad.Matchers, what = []sim.APIMatcher{{Name: "a", Value: "[", IsRegex: true, IsEqual: true}}, "bad regex"
+						bad.Matchers, what = []sim.APIMatcher{{Name: "a", Value: gen.Pick(r, []string{"[", "a)|(?:b", "x)|(y", "(", "a{2,1}", "*a", "(?P<n", "\\"}), IsRegex: true, IsEqual: r.Intn(2) == 0}}, "bad regex"
 					case 3:
 						bad.Matchers, what = []sim.APIMatcher{{Name: "", Value: "x", IsEqual: true}}, "empty label name"
 					case 4:
